@@ -305,8 +305,19 @@ def check_with_handlers(case):
 
         return cb
 
+    reads = {"n": 0}
+
+    def failing_read(event):
+        # a hardware poll that fails now and then (the k-th Read event of the history raises)
+        reads["n"] += 1
+        if reads["n"] == 1 + case.get("fail_at", 0) % 7:
+            raise RuntimeError("transient hardware I/O error while polling (generated)")
+
     for i in range(n):
-        getattr(rig.vec, f"e{i}")._definition.attach_event_handler(events.Change, make(i))
+        if case["mode"] == "read-raises":
+            getattr(rig.vec, f"e{i}")._definition.attach_event_handler(events.Read, failing_read)
+        else:
+            getattr(rig.vec, f"e{i}")._definition.attach_event_handler(events.Change, make(i))
     nt = False
     for op in case["ops"]:
         before = rig.state()
@@ -315,7 +326,9 @@ def check_with_handlers(case):
         try:
             rig.apply(op)
         except Exception as e:  # noqa
-            raise Failure(f"raises:{op[0]}:{type(e).__name__}:handlers", f"{case['rule']} n={n} state={before} op={op} mode={case['mode']}: {type(e).__name__}: {e}")
+            if not (case["mode"] == "read-raises" and isinstance(e, RuntimeError) and "generated" in str(e)):
+                raise Failure(f"raises:{op[0]}:{type(e).__name__}:handlers", f"{case['rule']} n={n} state={before} op={op} mode={case['mode']}: {type(e).__name__}: {e}")
+            seen.append(rig.state())  # the handler's own failure surfaces to the caller; the property must still hold afterwards
         after = rig.state()
         ctx = f"{case['rule']} n={n} mode={case['mode']} before={before} op={op} after={after}"
         pubs = []
@@ -354,7 +367,7 @@ hidden_history = st.fixed_dictionaries({"rule": st.sampled_from(gen.RULES), "n":
                                         "ops": st.lists(op_st | hide_op, min_size=2, max_size=25)})
 
 handler_history = st.fixed_dictionaries({"rule": st.sampled_from(gen.RULES), "n": st.integers(2, 5), "on": st.lists(idx, max_size=3), "ops": st.lists(op_st, min_size=1, max_size=20),
-                                         "mode": st.sampled_from(["publish", "fallback", "observe"]), "fallback": idx})
+                                         "mode": st.sampled_from(["publish", "fallback", "observe", "read-raises", "read-raises"]), "fallback": idx, "fail_at": st.integers(0, 6)})
 
 SUBCHECKS = {"graph": check_graph_block, "history": check_history, "hidden": check_hidden, "handlers": check_with_handlers}
 
